@@ -5,7 +5,8 @@ import Frp.Model.NatHole
 
     server/visitor/visitor.go     Manager.Listen / NewConn / CloseListener          (stcp, sudp)
     pkg/util/net/listener.go      InternalListener.PutConn / Close (cap 128, closed flag)
-    server/service.go             RegisterVisitorConn (visitor user := user of the session with that run id)
+    server/service.go             RegisterVisitorConn (visitor user := user of the session with that run id),
+                                  RegisterControl (a login with the run id of a live session replaces it)
     server/proxy/{stcp,sudp,xtcp}.go  Run (default allow list = [owner's user]), Close
     server/control.go             RegisterProxy (name must be free), CloseProxy (own proxies only)
     pkg/nathole/controller.go     ListenClient / CloseClient / HandleVisitor (pre-check branch and
@@ -146,7 +147,8 @@ inductive Kind
   deriving DecidableEq, Repr
 
 inductive Op
-  | login (rid user : Str)                                   -- ControlManager.Add (fresh run id)
+  | login (rid user : Str)                                   -- RegisterControl: ControlManager.Add; a control still registered
+                                                             -- under this run id is Replaced and waited for (its proxies are closed)
   | logout (rid : Str)                                       -- session ends: its proxies closed, then ControlManager.Del
   | listen (name sk : Str) (allow : List Str)                -- Manager.Listen, driven directly
   | natListen (name sk : Str) (allow : List Str)             -- Controller.ListenClient, driven directly
@@ -185,7 +187,13 @@ def doNatListen (s : State) (name sk : Str) (allow : List Str) (owner : Str) : S
                       nextId := s.nextId + 1 }, .ok)
 
 def step (fixed : Bool) (H : Str → Str) (s : State) : Op → State × Out
-  | .login rid user => ({ s with ctls := aput s.ctls rid user }, .ok)
+  | .login rid user =>
+    -- service.go RegisterControl: `old := ctlManager.Add(runID, ctl)` (control.go Add: `old.Replaced(ctl)`; the map now
+    -- holds the new control), `old.WaitClosed()` (the old control's worker has closed all its proxies), `ctl.Start()`.
+    -- The old control's later `Del(runID, old)` finds another pointer and does nothing (Frp/Model/CtlMgr.lean).
+    ({ s with ctls := aput s.ctls rid user,
+              listeners := s.listeners.filter (fun p => p.2.owner ≠ rid),
+              natCfgs := s.natCfgs.filter (fun p => p.2.owner ≠ rid) }, .ok)
   | .logout rid =>
     ({ s with ctls := adel s.ctls rid,
               listeners := s.listeners.filter (fun p => p.2.owner ≠ rid),
